@@ -116,6 +116,38 @@ func c05ObjectCases() []c05ObjCase {
 	}
 }
 
+// c05CatchMatrix: one hierarchy (interfaces extending interfaces, implemented by an ancestor or by the
+// class itself), every (thrown class, catch type) pair: caught iff the type is the class, an ancestor,
+// an implemented interface or a parent of one.
+func c05CatchMatrix() (string, map[string]bool) {
+	const decl = "<?php\ninterface QI {}\ninterface QJ extends QI {}\ninterface QK {}\nclass QP extends Exception implements QJ {}\nclass QC extends QP {}\nclass QD extends QC implements QK {}\nclass QU extends Exception {}\n"
+	is := map[string][]string{
+		"QP": {"QP", "Exception", "Throwable", "QJ", "QI"},
+		"QC": {"QC", "QP", "Exception", "Throwable", "QJ", "QI"},
+		"QD": {"QD", "QC", "QP", "Exception", "Throwable", "QJ", "QI", "QK"},
+		"QU": {"QU", "Exception", "Throwable"},
+	}
+	types := []string{"QP", "QC", "QD", "QU", "QI", "QJ", "QK", "Exception", "Throwable"}
+	var sb strings.Builder
+	sb.WriteString(decl)
+	want := map[string]bool{}
+	for _, cls := range []string{"QP", "QC", "QD", "QU"} {
+		for _, ty := range types {
+			k := cls + ">" + ty
+			fmt.Fprintf(&sb, "try { try { throw new %s('m'); } catch (%s $e) { __obs(\"%s\", true); } } catch (Throwable $o) { __obs(\"%s\", false); }\n", cls, ty, k, k)
+			for _, a := range is[cls] {
+				if a == ty {
+					want[k] = true
+				}
+			}
+			if !want[k] {
+				want[k] = false
+			}
+		}
+	}
+	return sb.String(), want
+}
+
 func c05JudgeObject(pool *sb.Pool, rec *sb.Rec, c c05ObjCase) []*failure {
 	rep := pool.Exec(&sb.Req{Kind: "script", Src: c.Src, Tmpl: true, Run: true})
 	rec.Eval()
@@ -160,6 +192,21 @@ func TestC05(t *testing.T) {
 			rec.InfraProblem("replay: %v", err)
 			return
 		}
+		if strings.HasPrefix(rf.Key, "cell:catch-matrix:") {
+			src, want := c05CatchMatrix()
+			rep := pool.Exec(&sb.Req{Kind: "script", Src: src, Tmpl: true, Run: true})
+			rec.Eval()
+			rec.NonTrivial(src)
+			rec.NonTrivial(src, "replay")
+			o := parseObs(rep.Obs)
+			for k, w := range want {
+				if g, isb := boolOf(o[k]); !isb || g != w {
+					rec.Fail(rf.Key, fmt.Sprintf("throw > catch %s: caught = %q, should be %v", k, o[k], w), c05ObjCase{Form: "catch-matrix", Src: src})
+					break
+				}
+			}
+			return
+		}
 		if strings.HasPrefix(rf.Key, "cell:catch-object:") {
 			var c c05ObjCase
 			json.Unmarshal(rf.Case, &c)
@@ -198,6 +245,26 @@ func TestC05(t *testing.T) {
 		rec.Label("catch-object:"+c.Form, c.Src)
 		for _, f := range c05JudgeObject(pool, rec, c) {
 			rec.Fail(f.Key, f.Detail, f.Case)
+		}
+	}
+	if cfg.Shard == 0 {
+		src, want := c05CatchMatrix()
+		rep := pool.Exec(&sb.Req{Kind: "script", Src: src, Tmpl: true, Run: true})
+		rec.Eval()
+		rec.NonTrivial(src)
+		rec.Label("catch-matrix", src)
+		if rep.Outcome == sb.Infra {
+			rec.InfraProblem("%s", rep.Msg)
+		} else {
+			o := parseObs(rep.Obs)
+			for k, w := range want {
+				got, ok := o[k]
+				g, isb := boolOf(got)
+				if !ok || !isb || g != w {
+					rec.Fail("cell:catch-matrix:"+map[bool]string{true: "should-catch", false: "should-not-catch"}[w], fmt.Sprintf("throw > catch %s: caught = %q, should be %v (outcome %s %s)", k, got, w, rep.Outcome, clip(rep.Msg, 120)), c05ObjCase{Form: "catch-matrix", Src: src})
+					break
+				}
+			}
 		}
 	}
 	// fixed CLI cases first: the three outcome kinds on hand-written programs
